@@ -7,6 +7,7 @@ import (
 	"sort"
 	"strings"
 	"sync"
+	"sync/atomic"
 	"time"
 
 	kitlog "github.com/go-kit/kit/log/logrus"
@@ -150,7 +151,39 @@ func promCases(thorough bool) []promCase {
 
 // ---- running one query over a Queryable ----
 
+// queryBound guards against code under test that never terminates (a cursor whose Next never returns false makes
+// the engine spin: it does not look at its context inside the iterator loop).  The bound is generous against the
+// milliseconds a query takes; a query that exceeds it is abandoned (its goroutine keeps spinning until exit) and
+// after stuckLimit of them the PromQL part stops.
+const (
+	queryBound = 20 * time.Second
+	stuckLimit = 2
+)
+
+var stuck int64
+
+var errNoTermination = fmt.Errorf("query did not terminate within %s", queryBound)
+
 func runQuery(eng *promql.Engine, q storage.Queryable, c promCase) (string, error) {
+	type res struct {
+		s   string
+		err error
+	}
+	ch := make(chan res, 1)
+	go func() {
+		s, err := runQueryUnguarded(eng, q, c)
+		ch <- res{s, err}
+	}()
+	select {
+	case r := <-ch:
+		return r.s, r.err
+	case <-time.After(queryBound):
+		atomic.AddInt64(&stuck, 1)
+		return "", errNoTermination
+	}
+}
+
+func runQueryUnguarded(eng *promql.Engine, q storage.Queryable, c promCase) (string, error) {
 	ctx := context.Background()
 	var qry promql.Query
 	var err error
@@ -497,6 +530,10 @@ func runPromCases(r *ev.Run, viol *violations, db *MetricDB, tables *chsim.DB, c
 				if i >= len(cases) || r.Expired() {
 					break
 				}
+				if atomic.LoadInt64(&stuck) >= stuckLimit {
+					r.Cap("PromQL part stopped: queries over the real adapter do not terminate")
+					break
+				}
 				c := cases[i]
 				class, what, outcome, nsel := diffOne(eng, real, db, c)
 				results[i] = result{class, what, outcome, nsel}
@@ -545,6 +582,9 @@ func diffOne(eng *promql.Engine, real *realStore, db *MetricDB, c promCase) (cla
 			return "", "", "both_reject", selects
 		}
 		return "promql:accepts_what_prometheus_rejects", fmt.Sprintf("reference engine: %v; real adapter answered", werr), "mismatch", selects
+	}
+	if gerr == errNoTermination {
+		return "promql:query_does_not_terminate", "the engine never finishes iterating the series of the real adapter", "stuck", selects
 	}
 	if gerr != nil {
 		return "promql:select_error", fmt.Sprintf("real adapter fails: %v", gerr), "real_error", selects
